@@ -16,6 +16,13 @@ CONFIGS = {
              "-DFOONATHAN_MEMORY_DEBUG_FENCE=16", "-DFOONATHAN_MEMORY_DEBUG_LEAK_CHECK=ON",
              "-DFOONATHAN_MEMORY_DEBUG_POINTER_CHECK=ON",
              "-DFOONATHAN_MEMORY_DEBUG_DOUBLE_DEALLOC_CHECK=OFF"],
+    # pointer and double-free checking without assertions, without fill: a bad call that slips through a check
+    # neither trips an assertion nor crashes in a fill loop - it has to be REPORTED
+    "pc":   ["-DCMAKE_BUILD_TYPE=", "-DCMAKE_CXX_FLAGS=-O1 -g",
+             "-DFOONATHAN_MEMORY_DEBUG_ASSERT=OFF", "-DFOONATHAN_MEMORY_DEBUG_FILL=OFF",
+             "-DFOONATHAN_MEMORY_DEBUG_FENCE=0", "-DFOONATHAN_MEMORY_DEBUG_LEAK_CHECK=OFF",
+             "-DFOONATHAN_MEMORY_DEBUG_POINTER_CHECK=ON",
+             "-DFOONATHAN_MEMORY_DEBUG_DOUBLE_DEALLOC_CHECK=ON"],
     "tm1":  ["-DCMAKE_BUILD_TYPE=RelWithDebInfo", "-DFOONATHAN_MEMORY_TEMPORARY_STACK_MODE=1"],
 }
 
